@@ -189,11 +189,13 @@ def _join(d, n):
     return d + "/" + n if d else n
 
 
-def _gen_edit(rng, tree, fidn, allow_dotgit):
+def _gen_edit(rng, tree, fidn, allow_dotgit, force=None):
     """one random edit of a flat native tree (list of [path, fid, kind, data, exec])"""
     tree = [list(e) for e in tree]
     op = rng.choice(["add", "add", "modify", "modify", "chmod", "delete", "rename", "rename", "kind", "adddir",
-                     "retarget", "addlink"])
+                     "retarget", "addlink", "moveout", "moveout", "addsub"])
+    if force:
+        op = force
     files = [e for e in tree if e[2] == "file"]
     links = [e for e in tree if e[2] == "symlink"]
 
@@ -203,6 +205,34 @@ def _gen_edit(rng, tree, fidn, allow_dotgit):
             return ".git"
         return rng.choice(cands) if cands else None
 
+    if op == "moveout":
+        # a file/symlink leaves a directory that keeps at least one other child; nothing else in it changes
+        cands = [e for e in tree if e[2] != "directory" and "/" in e[0]
+                 and len(_children(tree, e[0].rsplit("/", 1)[0])) >= 2]
+        if not cands:
+            op = "addsub"
+        else:
+            e = rng.choice(cands)
+            src = e[0].rsplit("/", 1)[0]
+            dirs = [d for d in _dirs(tree) if d != src]
+            d = rng.choice(dirs)
+            n = fresh(d) if rng.random() < 0.5 else (e[0].rsplit("/", 1)[1] if _join(d, e[0].rsplit("/", 1)[1]) not in _paths(tree) else fresh(d))
+            if n is None or n == ".git":
+                return tree
+            e[0] = _join(d, n)
+            return tree
+    if op == "addsub":
+        # grow a directory with two leaves (raw material for "moveout")
+        d = rng.choice(_dirs(tree))
+        n = fresh(d)
+        if n is None or n == ".git":
+            return tree
+        fidn[0] += 3
+        sub = _join(d, n)
+        tree.append([sub, b"f%d" % (fidn[0] - 2), "directory", b"", False])
+        tree.append([_join(sub, "aa"), b"f%d" % (fidn[0] - 1), "file", rng.choice(CONTENTS), False])
+        tree.append([_join(sub, "ll"), b"f%d" % fidn[0], "symlink", rng.choice(TARGETS).encode("utf-8"), False])
+        return tree
     if op in ("add", "adddir", "addlink") or not tree:
         d = rng.choice(_dirs(tree))
         n = fresh(d)
@@ -298,8 +328,11 @@ def gen_native(rng, nrev, allow_dotgit=True):
             else:
                 for p in parents[1:]:
                     tree = _take_other(rng, tree, revs[p]["tree"])
-                for _ in range(rng.choice([0, 1, 1, 2, 3])):
-                    tree = _gen_edit(rng, tree, fidn, allow_dotgit)
+                if rng.random() < 0.25:
+                    tree = _gen_edit(rng, tree, fidn, allow_dotgit, force="moveout")    # the only change of the revision
+                else:
+                    for _ in range(rng.choice([0, 1, 1, 2, 3])):
+                        tree = _gen_edit(rng, tree, fidn, allow_dotgit)
         revs.append({"parents": parents, "tree": sorted(tree, key=lambda e: e[0].split("/"))})
         anc[i] = {i}.union(*[anc[q] for q in parents])
     # make the last revision a descendant of every head so that dpush carries the whole history
@@ -338,7 +371,7 @@ def _git_sorted(ents):
 
 def _mutate_git_tree(rng, tree, depth=0):
     tree = [[m, n, (_copy_git(v) if isinstance(v, list) else v)] for m, n, v in tree]
-    op = rng.choice(["add", "modify", "chmod", "delete", "descend", "kind"])
+    op = rng.choice(["add", "modify", "chmod", "delete", "descend", "kind", "kindsame", "kindsame"])
     names = {n for _, n, _ in tree}
     if op == "descend":
         subs = [e for e in tree if isinstance(e[2], list)]
@@ -369,6 +402,18 @@ def _mutate_git_tree(rng, tree, depth=0):
             e[0] = rng.choice([m for m in (M_REG, M_EXE) if m != e[0]])
     elif op == "delete" and len(tree) > 1:
         tree.remove(rng.choice(tree))
+    elif op == "kindsame":
+        # symlink <-> regular file with byte-identical blob (core.symlinks=false checkouts and their repair)
+        leaves = [e for e in tree if not isinstance(e[2], list) and e[1] != b"counter"]
+        if leaves:
+            e = rng.choice(leaves)
+            if e[0] == M_LNK:
+                e[0] = rng.choice([M_REG, M_EXE])
+            else:
+                if not _valid_target(e[2]):
+                    e[2] = rng.choice(TARGETS).encode("utf-8")      # (this also edits the content)
+                else:
+                    e[0] = M_LNK
     elif op == "kind":
         e = rng.choice(tree)
         if isinstance(e[2], list):
@@ -378,6 +423,14 @@ def _mutate_git_tree(rng, tree, depth=0):
         else:
             e[0], e[2] = M_LNK, b"aa"
     return _git_sorted(tree)
+
+
+def _valid_target(data):
+    try:
+        # no control characters: a 2a inventory cannot hold a symlink target containing a newline (see notes)
+        return bool(data) and all(c >= 32 for c in bytes(data)) and bool(bytes(data).decode("utf-8"))
+    except UnicodeDecodeError:
+        return False
 
 
 def _copy_git(tree):
@@ -429,6 +482,17 @@ def corpus():
         {"parents": [2], "tree": [f("aa", b"a", b"A\n", True), d("dd", b"d"), d("dd/ee", b"e")]},
         {"parents": [3], "tree": [f("aa", b"a", b"A\n", True), d(".git", b"g"), f(".git/aa", b"ga"), d("dd", b"d")]},
     ]})
+    # a leaf moved out of a directory that keeps another child, as the ONLY change (file; symlink; nested; into a sibling)
+    b0 = [d("dd", b"d"), f("dd/aa", b"a"), f("dd/bb", b"b", b"B\n"), l("dd/ll", b"l", b"aa"), d("dd/ee", b"e"),
+          f("dd/ee/xx", b"x", b"x \n"), f("dd/ee/yy", b"y", b""), d("gg", b"g"), f("gg/zz", b"z", b"\xc3\xa9\n")]
+    mv = lambda t, old, new: [[new if e[0] == old else e[0]] + list(e[1:]) for e in t]
+    b1 = mv(b0, "dd/bb", "bb")
+    b2 = mv(b1, "dd/ll", "gg/ll")
+    b3 = mv(b2, "dd/ee/yy", "dd/yy")
+    b4 = mv(b3, "gg/zz", "dd/ee/zz")
+    out.append({"kind": "native", "revs": [{"parents": [], "tree": b0}, {"parents": [0], "tree": b1},
+                                           {"parents": [1], "tree": b2}, {"parents": [2], "tree": b3},
+                                           {"parents": [3], "tree": b4}]})
     # a merge that changes nothing relative to its left parent (root tree must come from parent 0, not parent 1)
     out.append({"kind": "native", "revs": [
         {"parents": [], "tree": [f("aa", b"a"), f("bb", b"b", b"B\n")]},
@@ -444,6 +508,13 @@ def corpus():
     g3 = [[M_EXE, b"aa", b"2\n"], [M_REG, b"counter", b"3\n"], [M_DIR, b"dd", [[M_REG, b"bb", b"B\n"]]]]
     out.append({"kind": "git", "commits": [{"parents": [], "tree": g0}, {"parents": [0], "tree": g1},
                                            {"parents": [0], "tree": _git_sorted(g2)}, {"parents": [1, 2], "tree": g3}]})
+    # symlink <-> regular file with the identical blob, back and forth, also with the exec bit, also in a subdirectory
+    k = lambda m1, m2, i: [[M_REG, b"counter", b"%d\n" % i], [M_DIR, b"dd", [[m2, b"tt", b"../aa"]]], [m1, b"ll", b"aa"]]
+    out.append({"kind": "git", "commits": [{"parents": [], "tree": _git_sorted(k(M_LNK, M_REG, 0))},
+                                           {"parents": [0], "tree": _git_sorted(k(M_REG, M_REG, 1))},
+                                           {"parents": [1], "tree": _git_sorted(k(M_LNK, M_LNK, 2))},
+                                           {"parents": [2], "tree": _git_sorted(k(M_EXE, M_REG, 3))},
+                                           {"parents": [3], "tree": _git_sorted(k(M_LNK, M_EXE, 4))}]})
     # regression (C35-fetch-find-source-paths, fixed by fab1455): a single-character file modified in a non-root commit
     out.append({"kind": "git",
                 "commits": [{"parents": [], "tree": [[M_REG, b"a", b"1"]]}, {"parents": [0], "tree": [[M_REG, b"a", b"2"]]}]})
@@ -555,6 +626,20 @@ def _expand(lookup, sha, is_tree):
     return [[mode, name, _expand(lookup, s, stat.S_ISDIR(mode))] for name, mode, s in o.iteritems()]
 
 
+def _missing_objects(store, tree_sha, path=b""):
+    """paths of tree entries of the pushed git repository whose object is not in its object store"""
+    if tree_sha not in store:
+        return [path or b"<root>"]
+    out = []
+    for name, mode, sha in store[tree_sha].iteritems():
+        p = path + b"/" + name if path else name
+        if stat.S_ISDIR(mode):
+            out.extend(_missing_objects(store, sha, p))
+        elif sha not in store:
+            out.append(p)
+    return out
+
+
 def _listing(tree):
     out = []
     for path, ie in tree.iter_entries_by_dir():
@@ -649,20 +734,29 @@ def _impl_native(inp):
         gbr = gd.create_branch()
         res = br.push(gbr, lossy=True)
         gbr = Branch.open(os.path.join(base, "g"))
-        b2 = controldir.ControlDir.create_branch_convenience(os.path.join(base, "b2"), format=_fmt2a(), force_new_tree=False)
-        b2.pull(gbr)
         revidmap = res.revidmap
         grepo = gbr.repository
+        corrupt = False
+        for i, d in enumerate(per_rev):
+            ent = revidmap.get(_rid(i))
+            d["git_tree_ok"] = None
+            d["git_missing"] = []
+            d["rt_listing"] = None
+            if ent is not None:
+                gtree = grepo._git.object_store[ent[0]].tree
+                d["git_tree_ok"] = gtree == d["incr_sha"]
+                d["git_missing"] = _missing_objects(grepo._git.object_store, gtree)
+                corrupt = corrupt or bool(d["git_missing"])
+        _memo[_key(inp)] = ktrees
+        if corrupt:
+            return {"revs": per_rev}      # fetching a repository with dangling references back is pointless
+        b2 = controldir.ControlDir.create_branch_convenience(os.path.join(base, "b2"), format=_fmt2a(), force_new_tree=False)
+        b2.pull(gbr)
         with b2.repository.lock_read():
             for i, d in enumerate(per_rev):
                 ent = revidmap.get(_rid(i))
-                if ent is None:
-                    d["rt_listing"] = None
-                    d["git_tree_ok"] = None
-                    continue
-                gsha, newrevid = ent
-                d["rt_listing"] = _listing(b2.repository.revision_tree(newrevid))
-                d["git_tree_ok"] = grepo._git.object_store[gsha].tree == d["incr_sha"]
+                if ent is not None:
+                    d["rt_listing"] = _listing(b2.repository.revision_tree(ent[1]))
         _memo[_key(inp)] = ktrees
         return {"revs": per_rev}
     finally:
@@ -775,9 +869,10 @@ def _impl(inp):
         if inp["kind"] == "native":
             return _impl_native(inp)
         return _impl_git(inp)
-    except Exception as e:
-        # the known crash classes (see notes/C35.md); anything else is a driver error
-        if type(e).__name__ not in ("TypeError", "AssertionError"):
+    except BaseException as e:
+        # the known crash classes (see notes/C35.md) and panics of the Rust inventory code (pyo3 PanicException is a
+        # BaseException); anything else is a driver error
+        if type(e).__name__ not in ("TypeError", "AssertionError", "PanicException", "KeyError"):
             raise
         import traceback
         tb = traceback.extract_tb(e.__traceback__)
@@ -845,6 +940,8 @@ def oracle(inp, obs):
                 return f"revision {i}: exported tree {d['scratch_sha']!r} differs from the reference {d['ref_sha']!r}"
             if not d["direct_root_ok"]:
                 return f"revision {i}: root yielded by _tree_to_objects differs from the stored commit's tree"
+            if d.get("git_missing"):
+                return f"revision {i}: the pushed git repository lacks the objects of {d['git_missing']!r}"
             if d["rt_listing"] is None:
                 return f"revision {i} was not carried by push"
             want = _sorted_listing(_ref_roundtrip_listing(_nest(r["tree"])))
